@@ -286,6 +286,34 @@ class Run:
         self.quiet = q
         self.emit({"e": "sendsignal", "stage": stage_ref, "pers": persistent, "s": self.proj.state()})
 
+    def pause(self) -> None:
+        q = self.quiet
+        self.quiet = True
+        self.store.pause(self.wf_id, "verif")
+        self.quiet = q
+        self.emit({"e": "pause", "s": self.proj.state()})
+
+    def unpause(self) -> None:
+        from stabilize import Orchestrator
+
+        q = self.quiet
+        self.quiet = True
+        Orchestrator(self.queue, store=self.store).unpause(self.store.retrieve(self.wf_id))
+        self.quiet = q
+        self.emit({"e": "unpause", "s": self.proj.state()})
+
+    def restart_stage(self, stage_ref: str) -> None:
+        from stabilize import Orchestrator
+
+        sid = None
+        for r in self.raw.execute("SELECT id FROM stage_executions WHERE ref_id = ?", (stage_ref,)):
+            sid = r["id"]
+        q = self.quiet
+        self.quiet = True
+        Orchestrator(self.queue, store=self.store).restart(self.store.retrieve(self.wf_id), sid)
+        self.quiet = q
+        self.emit({"e": "sendrestart", "stage": stage_ref, "s": self.proj.state()})
+
     def early_start(self, stage_ref: str) -> None:
         from stabilize.queue.messages import StartStage
 
